@@ -932,6 +932,23 @@ func (env *Env) trCall(e *E) Val {
 			return Val{S: sel(env.heap(md), x.S), Sort: "(Array " + ks + " Bool)"}
 		}
 		return Val{S: sel(env.heap(mv), x.S), Sort: "(Array " + ks + " " + vs + ")", G: x.G}
+	case "maplen": // maplen(m): len(m) of a Go map (the same uninterpreted function of the key set the code's len uses)
+		x := arg(0)
+		if mp, ok := x.G.Underlying().(*types.Map); ok {
+			ks, vs := m.sortOf(mp.Key()), m.sortOf(mp.Elem())
+			if ks == "Str" {
+				ks = "Int"
+			}
+			md, _ := m.compMap(ks, vs)
+			fn := "maplen_" + san(ks)
+			d1 := "(declare-fun " + fn + " ((Array " + ks + " Bool)) Int)"
+			if !m.extraSeen[d1] {
+				m.extraSeen[d1] = true
+				m.extraDecl = append(m.extraDecl, d1)
+			}
+			return Val{S: ite(eq(x.S, "0"), "0", "("+fn+" "+sel(env.heap(md), x.S)+")"), Sort: "Int"}
+		}
+		sfail("maplen of non-map")
 	case "mapdom": // mapdom(m, k): key present
 		x, k := arg(0), arg(1)
 		if mp, ok := x.G.Underlying().(*types.Map); ok {
